@@ -82,11 +82,9 @@ class DoIPDiscoverer(AsyncScript):
 
         if self.db_handler is not None:
             try:
-                # We need to manually connect to the DB because we are an AsyncScript that
-                # does not do so automatically
-                await self.db_handler.connect()
+                # The connection was opened by `entry_point()` and has to stay open:
+                # the end time and the exit code of this run are written through it.
                 await self.db_handler.insert_discovery_run("doip")
-                await self.db_handler.disconnect()
             except Exception as e:
                 logger.warning(f"Could not write the discovery run to the database: {e!r}")
 
@@ -425,11 +423,7 @@ class DoIPDiscoverer(AsyncScript):
                         with self.artifacts_dir.joinpath("4_responsive_targets.txt").open("a") as f:
                             f.write(f"{current_target}\n")
                     if self.db_handler is not None:
-                        # We need to manually connect to the DB because we are an AsyncScript that
-                        # does not do so automatically
-                        await self.db_handler.connect()
                         await self.db_handler.insert_discovery_result(current_target)
-                        await self.db_handler.disconnect()
 
                 if (
                     abs(source_address - conn.target_addr) > 10
